@@ -772,11 +772,12 @@ def template_case(t: Any, src: str) -> dict[str, Any] | None:
 
 NAMES = ["a", "b", "c", "x", "y", "items", "n", "s", "user", "title"]
 ODD_NAMES = ["empty", "blank", "limit", "offset", "cols", "reversed", "continue", "true", "nil", "if",
-             "for", "and", "not", "as", "with", "else", "required", "in", "or", "contains", "false", "null", "é1", "_u", "a-b", "a b", "it's", "", "1st", 'q"q', "x\ny", "$", "a.b"]
+             "for", "and", "not", "as", "with", "else", "required", "in", "or", "contains", "false", "null", "é1", "_u", "a-b", "a b", "it's", "", "1st", 'q"q', "x\ny", "$", "a.b",
+             "\u2028x", "\u00a0", "\u3000é"]
 STRINGS = ["", "a", "a b", "it's", 'say "hi"', "it's \"both\"", "back\\slash", "line\nbreak", "tab\tx",
            "${x}", "$5", "a${", "cr\rx", "\x08\x0c", "\x1b[0m", "\x7f", "é", " ", " ", "😀",
            "", "\U000e0001", "%}", "}}", "{{", "{% x %}", "{# c #}", "\\'", "'\\", "\\\\n", "nil",
-           "continue", ",", "|", "a'b\"c\\d$e{f}"]
+           "continue", ",", "|", "a'b\"c\\d$e{f}", "\ud800", "x\udc00y", "\udbff\ud800 '"]
 FLOATS = ["1.5", "-0.25", "3.0", "1.0e+16", "2.5e-7", "10000000000000000.0", "0.1", "1e-3", "123.456e5",
           "-2.0e22", "0.00001",
           # the overflow boundary: the largest double, the first spelling that rounds to inf, far beyond, underflow
@@ -815,6 +816,8 @@ def src_string(r: Any, s: str) -> str:
         elif o > 0xFFFF and r.random() < 0.5:
             o -= 0x10000
             out.append(f"\\u{0xD800 + (o >> 10):04X}\\u{0xDC00 + (o & 0x3FF):04x}")
+        elif 0xD800 <= o <= 0xDFFF:
+            out.append(ch)  # a lone surrogate has no escape: raw or not at all
         elif o <= 0xFFFF and (r.random() < 0.08 or o < 0x20):
             out.append(f"\\u{o:04x}")
         else:
@@ -1088,6 +1091,7 @@ PARTIALS = {
     "base": "<{% block title %}T{% endblock %}|{% block body required %}{% endblock body %}|"
             "{% block 'side bar' %}S{{ block.super }}{% endblock %}>",
     "it's": "Q",
+    "cyc": "{% cycle 'odd', 'even' %}{% cycle g: a, 'x' %}{% cycle nil, 1.5, b.c %}",
 }
 TEXTS = ["Hello", " ", "\n", "  \n  ", "a b", "{ ", "}", "%", "#", "x\ty", "é", ", ", "<b>", "\r\n", "0",
          "{ { ", "% }", "-", "~", "}}", "%}"]
@@ -1732,6 +1736,9 @@ TEMPLATE_CORPUS = [
     "{% include 'a' for b as c %}{% render 'a' with b as 'y z' %}", "{{ b, | first }}",
     "{% macro 'my f' p %}{{ p }}{% endmacro %}{% call 'my f' 1 %}", "{% block 'a b' %}x{% endblock %}",
     "{% liquid echo a\n# note  %}", "{% liquid\n  echo ['a b']\n echo y[\"a\\nb\"]\n echo [true] %}",
+    "{{ ['\u2028'] }}{{ ['\u00a0x'].y }}{% echo ['\u2028'] %}{% liquid echo ['\u3000'] %}",
+    "{{ '\ud800' }}{{ a['\udc00'] }}{% increment 'x\udfff y' %}{{ \"q${a}\udbff'\" }}",
+    "{{ \"a${'b${\"c${x}\"}'}\" }}",
     "{% for i in b %}{{ i }}{% endfor %}", "{{ 1.0e400 }}|{{ -1.0e400 }}|{{ n | plus: 2.0e308 }}|{{ 1.7976931348623157e308 }}",
     "{% for i in b, ['limit'] %}{{ i }}{% endfor %}|{% for i in b offset: ['continue'] %}{{ i }}{% endfor %}"
     "|{% for i in b offset: continue %}{{ i }}{% endfor %}|{% for i in ['limit'], ['reversed'] %}{{ i }}{% endfor %}",
@@ -1747,12 +1754,92 @@ TEMPLATE_CORPUS = [
 ]
 
 # Known findings: the recorded witnesses are re-observed on every run.
-KNOWN_WITNESSES = [
-    ("unicode-space-in-bare-name", "{{ ['\u2028'] }}",
-     "a variable whose name starts with Unicode whitespace is written bare, and the `\\s*` after `{{` swallows it"),
-    ("loop-bare-word-reinterpreted", "{% for i in b offset: ['continue'] %}{{ i }}{% endfor %}",
-     "`offset: ['continue']` is serialised as `offset:continue`, which is read as the string 'continue'"),
-]
+KNOWN_WITNESSES: list[tuple[str, str, str]] = []   # (signature, source, what): none at present
+
+
+def nested_tstring(depth: int) -> str:
+    """`{{ "${'${"${x}"}'}" }}`: template strings nested in template strings."""
+    inner = "x"
+    for k in range(depth):
+        q = "'\""[k % 2]
+        inner = q + "a${" + inner + "}" + q
+    return "{{ " + inner + " }}"
+
+
+def special_observations(chk: Any, envs: dict[bool, Any]) -> dict[str, Any]:
+    """Round-8 classes that need their own observation."""
+    import subprocess
+    import sys
+    import time
+    out: dict[str, Any] = {}
+    env = envs[False]
+
+    # (a) str() of nested template strings is linear, not exponential
+    src = nested_tstring(18)
+    t = env.from_string(src)
+    t0 = time.perf_counter()
+    s1 = str(t)
+    dt = time.perf_counter() - t0
+    out["str() of a template string nested 18 deep, seconds"] = round(dt, 4)
+    if dt > 0.5:
+        chk.finding("oracle:str-exponential-time",
+                    f"str() of an 18-deep nested template string ({len(src)} characters) took {dt:.2f} s",
+                    {"source": src})
+    res = oracle(env, src, [{}, {"x": "X"}])
+    if res and res[0]:
+        chk.finding(res[0], res[1] + " (nested template strings)", res[2])
+
+    # (b) a template pickled in another process (other string hash seed) behaves the same here
+    sources = [
+        "{% cycle 'odd', 'even' %} {% include 'cyc' %} {% cycle 'odd', 'even' %}",
+        "{% cycle g: a, 'x' %}{% include 'cyc' %}{% cycle g: a, 'x' %}{% cycle 'g': a, 'x' %}",
+        "{% for i in (1..3) %}{% cycle nil, 1.5, b.c %}{% include 'cyc' %}{% endfor %}",
+        "{% assign x = 'é' %}{% increment n %}{{ x | append: \"'\" }}{% cycle 'odd', 'even' %}",
+    ]
+    child = ("import sys, json, pickle, base64; from harness import c12; e = c12.tag_envs()[False]; "
+             "print(json.dumps([base64.b64encode(pickle.dumps(e.from_string(s))).decode() "
+             "for s in json.load(sys.stdin)]))")
+    import base64
+    import json as _json
+    import os
+    for seed in ("1", "12345"):
+        p = subprocess.run([sys.executable, "-W", "ignore", "-c", child], input=_json.dumps(sources),
+                           env=dict(os.environ, PYTHONHASHSEED=seed), capture_output=True, text=True, timeout=120)
+        if p.returncode != 0:
+            chk.notes.append("cross-process pickle helper failed: " + p.stderr[-300:])
+            break
+        blobs = _json.loads(p.stdout.strip().splitlines()[-1])
+        for src2, blob in zip(sources, blobs):
+            here = env.from_string(src2)
+            there = pickle.loads(base64.b64decode(blob))
+            for data in ({}, {"a": 1, "b": {"c": 2}}):
+                o1, o2 = render_outcome(here, data), render_outcome(there, data)
+                if o1 != o2:
+                    chk.finding("oracle:pickle-cross-process",
+                                "a template pickled by another process (other string hash seed) renders differently",
+                                {"source": src2, "writer PYTHONHASHSEED": seed, "out": o1, "out unpickled": o2})
+    out["templates unpickled from another process"] = 2 * len(sources)
+
+    # (c) known finding: str() recurses through the C stack once per nesting level
+    for depth in (130, 160, 190, 230, 280):
+        src = "{% if true %}" * depth + "x" + "{% endif %}" * depth
+        try:
+            t = env.from_string(src)
+            if t.render() != "x":
+                break
+        except RecursionError:
+            break
+        try:
+            str(t)
+        except RecursionError:
+            chk.finding("deep-nesting-recursionerror",
+                        f"{depth} nested block tags parse and render, but str(template) raises RecursionError",
+                        {"depth": depth})
+            out["nesting depth at which str() raises RecursionError"] = depth
+            break
+    return out
+
+
 
 
 def known_mechanism(items: Any) -> str | None:
@@ -1951,6 +2038,8 @@ def main(chk: C.Check, build: C.Build) -> None:  # noqa: PLR0912, PLR0915
         if len({o for o in info["outs"]}) > 1:
             eb_trim += 1
 
+    special = special_observations(chk, envs)
+
     for sig, src, what in KNOWN_WITNESSES:
         res = oracle(envs[True], src, data_sets(r))
         if res is not None and res[0]:
@@ -1993,7 +2082,7 @@ def main(chk: C.Check, build: C.Build) -> None:  # noqa: PLR0912, PLR0915
                          "templates pickled with overlay data, globals, name, path, uptodate": t_meta,
                          "... whose output on empty data depends on overlay data / template globals": t_meta_used,
                          "templates with a node outside the markup model": t_unmodelled,
-                         "render outcomes": outcomes},
+                         "render outcomes": outcomes, **special},
         "exhaustive": False,
         "tier_proved": "kernel (expression printers and parsers over tokens); markup level, lexing of printed "
                        "text, rendering and pickling by correspondence and oracle only (C12 is partial)",
